@@ -42,6 +42,19 @@
 //!   in order), MODEL is `Sweep.fillObj` run over the same history, each call started from the state
 //!   the model of the previous call left behind.  Its oracle clause `sweep_reuse/fresh-equal` compares
 //!   every call on the reused object with a fresh real object at that level of detail.
+//! * `sweepc_reuse:32` — the same on CURVED input with CUSTOM ATTRIBUTES
+//!   (`Model/Tess/ResetSweepCurves.lean`): histories of 2–5 calls on one real `FillTessellator` mixing the
+//!   polygonal calls of `sweep_reuse` with calls on paths with quadratic / cubic edges and 0–3 attributes
+//!   per endpoint through `tessellate`, `tessellate_path`, `tessellate_with_ids` (without / with the
+//!   store), `builder()` / `builder_with_attributes(n)` (also dropped), refused vertices, invalid
+//!   tolerances, paths that yield no event; IMPL additionally carries the bits of
+//!   `FillVertex::interpolated_attributes()` of every vertex; MODEL is `SweepCurves.fillObjC` over the
+//!   history (sweep state, recycled queue and attribute buffer carried from call to call).  Oracle
+//!   clauses `sweepc_reuse/fresh-equal`, `sweepc_reuse/attr-count`.
+//! * `chk_stroke_attrs` — `StrokeVertex::interpolated_attributes` on a REUSED `StrokeTessellator` whose
+//!   calls change the attribute count (checker family, `Model/Tess/StrokeAttrBuffer.lean`: the buffer as
+//!   each entry point's prologue leaves it, the interpolation loop over `buffer.len()`); oracle clause
+//!   `stroke_attrs/attr-count`.
 
 use lyon_path::math::{point, vector, Angle, Box2D, Point};
 use lyon_path::traits::{Build, PathBuilder};
@@ -1465,6 +1478,723 @@ fn sweep_reuse_case(ctx: &mut Ctx) {
 }
 
 
+// ---------------------------------------------------------------------------------------------
+// Family `sweepc_reuse:32`: the sweep model on a USED object, CURVED input and CUSTOM ATTRIBUTES
+// (`Model/Tess/ResetSweepCurves.lean`).
+//
+// ONE real `FillTessellator` goes through a history of 2–5 calls.  A call is either a polygonal
+// call of `sweep_reuse` (`RCall`: the inputs that leave the most behind — `Err` / panics part-way,
+// NaN coordinates, refused vertices, dropped builders) or a call on a path with line / quadratic /
+// cubic edges and 0–3 custom attributes per endpoint through `tessellate(path.iter())`,
+// `tessellate_path`, `tessellate_with_ids` without / with the path as attribute store, `builder()` /
+// `builder_with_attributes(n)` (optionally dropped without `build`), with a geometry builder that may
+// refuse the k-th vertex, valid and invalid tolerances, `handle_intersections` on / off.  IMPL is,
+// call by call, the COMPLETE emission sequence: outcome, every `add_fill_vertex` with its output
+// position, ALL sibling edge records (hook H1) and — when the call carries an attribute store — the
+// value of `FillVertex::interpolated_attributes()`, every `add_triangle`, in order.  MODEL is
+// `SweepCurves.fillObjC` run over the same history from `Obj.fresh`: every call starts from the object
+// the MODEL of the previous call left behind (pool, spans, edges, queue, attribute buffer with the
+// last interpolated values).  Oracle `sweepc_reuse/fresh-equal`: each call on the reused real object
+// equals the same call on a fresh real object, token for token; `sweepc_reuse/attr-count`.
+
+/// (port of `gen_cpath` of `c01.rs` onto this file's `Sub` / `Seg`) curved paths: blobs, lattice /
+/// random control polygons, shared curved edges walked in both directions, holes, degenerate
+/// curves, monotone curves, several sub-paths, open and closed.
+fn gen_csubs(rng: &mut Rng) -> (Vec<Sub>, &'static str) {
+    fn cpt(rng: &mut Rng, mode: u64, span: f64) -> Point {
+        match mode {
+            0 => point(rng.range(0, 8) as f32, rng.range(0, 8) as f32),
+            1 => point(rng.range(0, 32) as f32 * 0.25, rng.range(0, 32) as f32 * 0.25),
+            _ => point(rng.uniform(-span, span) as f32, rng.uniform(-span, span) as f32),
+        }
+    }
+    fn cseg(rng: &mut Rng, mode: u64, span: f64, curve_bias: u64) -> Seg {
+        match rng.below(2 + curve_bias) {
+            0 => Seg::Line(cpt(rng, mode, span)),
+            k if k % 2 == 1 => Seg::Quad(cpt(rng, mode, span), cpt(rng, mode, span)),
+            _ => Seg::Cubic(cpt(rng, mode, span), cpt(rng, mode, span), cpt(rng, mode, span)),
+        }
+    }
+    fn map_seg(g: &Seg, f: &dyn Fn(Point) -> Point) -> Seg {
+        match g {
+            Seg::Line(p) => Seg::Line(f(*p)),
+            Seg::Quad(c, p) => Seg::Quad(f(*c), f(*p)),
+            Seg::Cubic(a, b, p) => Seg::Cubic(f(*a), f(*b), f(*p)),
+        }
+    }
+    fn reversed_first(start: Point, e: &Seg) -> Seg {
+        match e {
+            Seg::Line(_) => Seg::Line(start),
+            Seg::Quad(c, _) => Seg::Quad(*c, start),
+            Seg::Cubic(a, b, _) => Seg::Cubic(*b, *a, start),
+        }
+    }
+    let kind = rng.below(11);
+    let (mut subs, name): (Vec<Sub>, &'static str) = match kind {
+        0 | 1 => {
+            let mut subs = Vec::new();
+            let m = rng.range(1, 3);
+            for _ in 0..m {
+                let c = point(rng.uniform(-3.0, 3.0) as f32, rng.uniform(-3.0, 3.0) as f32);
+                let r = rng.uniform(1.0, 6.0);
+                let n = rng.range(2, 5) as usize;
+                let ccw = rng.chance(1, 2);
+                let ph = rng.uniform(0.0, 6.283);
+                let mut k = 0.0f64;
+                let at = |rng: &mut Rng, k: f64| {
+                    let a = ph + (if ccw { 1.0 } else { -1.0 }) * k * 6.283185307 / (3.0 * n as f64);
+                    let rr = r * rng.uniform(0.7, 1.3);
+                    point(c.x + (rr * a.cos()) as f32, c.y + (rr * a.sin()) as f32)
+                };
+                let start = at(rng, 0.0);
+                let mut segs = Vec::new();
+                for i in 0..n {
+                    let last = i + 1 == n;
+                    let end = if last && rng.chance(1, 2) { start } else { at(rng, k + 3.0) };
+                    segs.push(match rng.below(3) {
+                        0 => Seg::Line(end),
+                        1 => Seg::Quad(at(rng, k + 1.5), end),
+                        _ => Seg::Cubic(at(rng, k + 1.0), at(rng, k + 2.0), end),
+                    });
+                    k += 3.0;
+                }
+                subs.push(Sub { start, segs, closed: rng.chance(3, 4) });
+            }
+            (subs, "blob")
+        }
+        2 | 3 => {
+            let mode = rng.below(2);
+            let mut subs = Vec::new();
+            for _ in 0..rng.range(1, 3) {
+                let start = cpt(rng, mode, 0.0);
+                let segs = (0..rng.range(1, 4)).map(|_| cseg(rng, mode, 0.0, 3)).collect();
+                subs.push(Sub { start, segs, closed: rng.chance(3, 4) });
+            }
+            (subs, "lattice")
+        }
+        4 => {
+            let span = *rng.pick(&[1.0f64, 10.0, 10.0, 100.0]);
+            let mut subs = Vec::new();
+            for _ in 0..rng.range(1, 3) {
+                let start = cpt(rng, 2, span);
+                let segs = (0..rng.range(1, 4)).map(|_| cseg(rng, 2, span, 4)).collect();
+                subs.push(Sub { start, segs, closed: rng.chance(3, 4) });
+            }
+            (subs, "random")
+        }
+        5 | 6 => {
+            // a curved edge shared by two sub-paths, walked in opposite (or the same) directions
+            let mode = rng.below(3);
+            let a = cpt(rng, mode, 8.0);
+            let e = cseg(rng, mode, 8.0, 6);
+            let b = e.to();
+            let s1 = Sub { start: a, segs: vec![e.clone(), Seg::Line(cpt(rng, mode, 8.0))], closed: true };
+            let s2 = if rng.chance(3, 4) {
+                Sub { start: b, segs: vec![reversed_first(a, &e), cseg(rng, mode, 8.0, 2)], closed: true }
+            } else {
+                Sub { start: a, segs: vec![e, cseg(rng, mode, 8.0, 2)], closed: true }
+            };
+            (if rng.chance(1, 2) { vec![s1, s2] } else { vec![s2, s1] }, "shared-curve")
+        }
+        7 => {
+            // a shape with a curved hole (either orientation)
+            let r = rng.uniform(3.0, 6.0) as f32;
+            let ring = |r: f32, ccw: bool, quad: bool| -> Sub {
+                let k = if quad { 1.0 } else { 0.5522848 };
+                let s = if ccw { 1.0 } else { -1.0 };
+                let p = |x: f32, y: f32| point(x * r, s * y * r);
+                let mut segs = Vec::new();
+                let q = [(1.0, 0.0), (0.0, 1.0), (-1.0, 0.0), (0.0, -1.0), (1.0, 0.0)];
+                for i in 0..4 {
+                    let (x0, y0) = q[i];
+                    let (x1, y1) = q[i + 1];
+                    if quad {
+                        segs.push(Seg::Quad(p(x0 + x1, y0 + y1), p(x1, y1)));
+                    } else {
+                        segs.push(Seg::Cubic(p(x0 + k * x1, y0 + k * y1), p(x1 + k * x0, y1 + k * y0), p(x1, y1)));
+                    }
+                }
+                Sub { start: p(1.0, 0.0), segs, closed: true }
+            };
+            let mut subs = vec![ring(r, rng.chance(1, 2), rng.chance(1, 2))];
+            let mut hole = ring(r * rng.uniform(0.2, 0.9) as f32, rng.chance(1, 2), rng.chance(1, 2));
+            let off = point(rng.uniform(-1.0, 1.0) as f32, rng.uniform(-1.0, 1.0) as f32);
+            hole.start = point(hole.start.x + off.x, hole.start.y + off.y);
+            hole.segs = hole.segs.iter().map(|g| map_seg(g, &|q| point(q.x + off.x, q.y + off.y))).collect();
+            subs.push(hole);
+            (subs, "rings")
+        }
+        8 => {
+            // degenerate curves: coincident / collinear control points, zero-length, from == to loops
+            let mode = rng.below(2);
+            let start = cpt(rng, mode, 0.0);
+            let mut cur = start;
+            let mut segs = Vec::new();
+            for _ in 0..rng.range(2, 4) {
+                let to = cpt(rng, mode, 0.0);
+                let mid = point((cur.x + to.x) * 0.5, (cur.y + to.y) * 0.5);
+                let g = match rng.below(9) {
+                    0 => Seg::Quad(cur, to),
+                    1 => Seg::Quad(to, to),
+                    2 => Seg::Quad(mid, to),
+                    3 => Seg::Quad(cpt(rng, mode, 0.0), cur),
+                    4 => Seg::Cubic(cur, to, to),
+                    5 => Seg::Cubic(cur, cur, cur),
+                    6 => Seg::Cubic(mid, mid, to),
+                    7 => Seg::Cubic(cpt(rng, mode, 0.0), cpt(rng, mode, 0.0), cur),
+                    _ => Seg::Cubic(to, cur, to),
+                };
+                cur = g.to();
+                segs.push(g);
+            }
+            (vec![Sub { start, segs, closed: rng.chance(1, 2) }], "degenerate-curves")
+        }
+        9 => {
+            // upward and downward monotone curves side by side, plus tiny sub-paths
+            let mut subs = Vec::new();
+            let n = rng.range(1, 3);
+            for i in 0..n {
+                let x = i as f32 * 3.0;
+                let h = rng.uniform(2.0, 8.0) as f32;
+                let w = rng.uniform(0.5, 3.0) as f32;
+                let bulge = rng.uniform(-4.0, 4.0) as f32;
+                let up = rng.chance(1, 2);
+                let (y0, y1) = if up { (h, 0.0) } else { (0.0, h) };
+                subs.push(Sub {
+                    start: point(x, y0),
+                    segs: vec![
+                        Seg::Cubic(point(x + bulge, y0 + (y1 - y0) * 0.3), point(x - bulge, y0 + (y1 - y0) * 0.7), point(x, y1)),
+                        Seg::Line(point(x + w, y1)),
+                        Seg::Quad(point(x + w + bulge * 0.5, (y0 + y1) * 0.5), point(x + w, y0)),
+                    ],
+                    closed: rng.chance(1, 2),
+                });
+            }
+            if rng.chance(1, 2) {
+                subs.push(Sub { start: point(1.0, 1.0), segs: vec![], closed: rng.chance(1, 2) });
+            }
+            (subs, "monotone-curves")
+        }
+        _ => {
+            // many overlapping curved sub-paths (crossings between flattened curves)
+            let mut subs = Vec::new();
+            for _ in 0..rng.range(2, 4) {
+                let start = cpt(rng, 2, 5.0);
+                let segs = (0..rng.range(2, 3)).map(|_| cseg(rng, 2, 5.0, 2)).collect();
+                subs.push(Sub { start, segs, closed: true });
+            }
+            (subs, "overlap-curves")
+        }
+    };
+    let xf: Option<Box<dyn Fn(Point) -> Point>> = match rng.below(14) {
+        0 => Some(Box::new(|q: Point| point(q.x * 1000.0, q.y * 1000.0))),
+        1 => Some(Box::new(|q: Point| point(q.x * 0.125, q.y * 0.125))),
+        2 => Some(Box::new(|q: Point| point(q.x + 1000.0, q.y - 500.0))),
+        3 => Some(Box::new(|q: Point| point(q.x * 0.37 + 0.11, q.y * 1.93 - 0.7))),
+        4 => Some(Box::new(|q: Point| point(q.y, q.x))),
+        5 => Some(Box::new(|q: Point| point(-q.x, -q.y))),
+        _ => None,
+    };
+    if let Some(f) = xf {
+        for s in &mut subs {
+            s.start = f(s.start);
+            s.segs = s.segs.iter().map(|g| map_seg(g, &*f)).collect();
+        }
+    }
+    (subs, name)
+}
+
+const CENTRY_NAMES: [&str; 5] = ["events", "path", "ids", "idsattr", "builder"];
+
+struct ReuseLogC {
+    o: Out,
+    nv: u32,
+    /// the k-th vertex offered is refused (1-based; 0 = never)
+    refuse_at: u32,
+    /// expected length of `interpolated_attributes()`
+    nattr: usize,
+    show_attrs: bool,
+    bad_count: Option<usize>,
+}
+
+impl GeometryBuilder for ReuseLogC {
+    fn add_triangle(&mut self, a: VertexId, b: VertexId, c: VertexId) {
+        self.o.t("t").u(a.0 as u64).u(b.0 as u64).u(c.0 as u64);
+    }
+}
+
+impl FillGeometryBuilder for ReuseLogC {
+    fn add_fill_vertex(&mut self, mut v: FillVertex) -> Result<VertexId, GeometryBuilderError> {
+        if self.refuse_at != 0 && self.nv + 1 == self.refuse_at {
+            // the refused vertex is not constructed: `interpolated_attributes` is not called
+            return Err(GeometryBuilderError::InvalidVertex);
+        }
+        let recs = v.verif_sibling_records();
+        self.o.t("v").p(v.position()).u(recs.len() as u64);
+        for r in &recs {
+            self.o.t(if r.is_edge { "e" } else { "p" }).p(r.position);
+            if r.is_edge {
+                self.o.p(r.to);
+            }
+            self.o.f(r.range.start).f(r.range.end).i(r.winding as i64).u(r.from_id.0 as u64).u(r.to_id.0 as u64);
+        }
+        let attrs = v.interpolated_attributes().to_vec();
+        if attrs.len() != self.nattr {
+            self.bad_count.get_or_insert(attrs.len());
+        }
+        if self.show_attrs {
+            self.o.t("a");
+            for x in &attrs {
+                self.o.f(*x);
+            }
+        }
+        self.nv += 1;
+        Ok(VertexId(self.nv - 1))
+    }
+}
+
+#[derive(Clone)]
+struct CCall {
+    subs: Vec<Sub>,
+    kind: String,
+    /// one attribute vector per endpoint, in command order
+    attrs: Vec<Vec<f32>>,
+    nattr: usize,
+    rule: FillRule,
+    orient: Orientation,
+    tol: f32,
+    entry: usize,
+    handle_ix: bool,
+    refuse: u32,
+    dropped: bool,
+}
+
+impl CCall {
+    fn gen(rng: &mut Rng, last: bool) -> CCall {
+        let entry = rng.below(5) as usize;
+        let nattr = if rng.chance(1, 4) { 0 } else { rng.range(1, 3) as usize };
+        let mut tol = *rng.pick(&[0.001f32, 0.01, 0.1, 1.0]);
+        let badtol = !last && rng.chance(1, 10);
+        // an invalid tolerance reaches the flattener of the queue builder before `tessellate_impl`
+        // rejects it (flattening at tolerance 0 / NaN is not this property): those paths are polygonal
+        let (subs, kind): (Vec<Sub>, String) = if rng.chance(1, 10) {
+            // a path that yields NO event (nothing, a lone `begin`/`end`, every edge degenerate): `sort`
+            // returns early and `first` is whatever `EventQueue::reset` left in the recycled queue
+            let p = point(rng.range(-4, 4) as f32, rng.range(-4, 4) as f32);
+            let subs = match rng.below(4) {
+                0 => vec![],
+                1 => vec![Sub { start: p, segs: vec![], closed: rng.chance(1, 2) }],
+                2 => vec![Sub { start: p, segs: vec![Seg::Line(p), Seg::Line(p)], closed: true }],
+                _ if badtol => vec![Sub { start: p, segs: vec![Seg::Line(p)], closed: false }],
+                _ => vec![Sub { start: p, segs: vec![Seg::Quad(p, p), Seg::Cubic(p, p, p)], closed: true }],
+            };
+            (subs, "no-events".to_string())
+        } else if badtol || rng.chance(1, 4) {
+            let p = PathSpec::gen(rng, 0, !badtol);
+            (p.subs, format!("poly-{}{}", p.kind, if p.curved { "+curves" } else { "" }))
+        } else {
+            let (s, k) = gen_csubs(rng);
+            (s, k.to_string())
+        };
+        let scale = subs
+            .iter()
+            .flat_map(|s| std::iter::once(s.start).chain(s.segs.iter().map(|g| g.to())))
+            .fold(1.0e-30f32, |m, p| m.max(p.x.abs()).max(p.y.abs()));
+        if scale > 100.0 || scale < 1.0 {
+            tol = tol * scale / 10.0;
+        }
+        if badtol {
+            tol = *rng.pick(&[0.0f32, f32::NAN, -0.5]);
+        }
+        let n_end: usize = subs.iter().map(|s| 1 + s.segs.len()).sum();
+        let attrs = (0..n_end).map(|_| (0..nattr).map(|_| rng.range(-64, 64) as f32 * 0.25).collect()).collect();
+        let normal = last && rng.chance(3, 4);
+        let refuse = if !normal && rng.chance(3, 10) { rng.range(1, 9) as u32 } else { 0 };
+        let dropped = !normal && entry == 4 && rng.chance(1, 5);
+        CCall {
+            subs,
+            kind,
+            attrs,
+            nattr,
+            rule: if rng.chance(1, 2) { FillRule::EvenOdd } else { FillRule::NonZero },
+            orient: if rng.chance(1, 2) { Orientation::Vertical } else { Orientation::Horizontal },
+            tol,
+            entry,
+            handle_ix: !rng.chance(1, if last { 8 } else { 4 }),
+            refuse,
+            dropped,
+        }
+    }
+
+    fn has_store(&self) -> bool {
+        match self.entry {
+            0 | 2 => false,
+            3 => true,
+            _ => self.nattr > 0,
+        }
+    }
+
+    fn put(&self, o: &mut Out) {
+        o.u(if self.rule == FillRule::EvenOdd { 0 } else { 1 });
+        o.u(if self.orient == Orientation::Vertical { 0 } else { 1 });
+        o.f(self.tol);
+        o.t(CENTRY_NAMES[self.entry]);
+        o.b(self.handle_ix).u(self.nattr as u64).u(self.refuse as u64).b(self.dropped);
+        o.u(self.subs.iter().map(|s| 2 + s.segs.len()).sum::<usize>() as u64);
+        let mut k = 0usize;
+        for s in &self.subs {
+            o.t("B").p(s.start);
+            for a in &self.attrs[k] {
+                o.f(*a);
+            }
+            k += 1;
+            for g in &s.segs {
+                match g {
+                    Seg::Line(p) => {
+                        o.t("L").p(*p);
+                    }
+                    Seg::Quad(c, p) => {
+                        o.t("Q").p(*c).p(*p);
+                    }
+                    Seg::Cubic(c1, c2, p) => {
+                        o.t("C").p(*c1).p(*c2).p(*p);
+                    }
+                }
+                for a in &self.attrs[k] {
+                    o.f(*a);
+                }
+                k += 1;
+            }
+            o.t("E").b(s.closed);
+        }
+    }
+
+    fn drive<B: PathBuilder>(&self, b: &mut B) {
+        let mut k = 0;
+        for s in &self.subs {
+            b.begin(s.start, &self.attrs[k]);
+            k += 1;
+            for g in &s.segs {
+                match g {
+                    Seg::Line(p) => b.line_to(*p, &self.attrs[k]),
+                    Seg::Quad(c, p) => b.quadratic_bezier_to(*c, *p, &self.attrs[k]),
+                    Seg::Cubic(c1, c2, p) => b.cubic_bezier_to(*c1, *c2, *p, &self.attrs[k]),
+                };
+                k += 1;
+            }
+            b.end(s.closed);
+        }
+    }
+
+    /// one call on `tess`: the tokens of the call, whether it panicked, and an unexpected attribute count
+    fn run(&self, tess: &mut FillTessellator) -> (String, bool, Option<usize>) {
+        let opts = FillOptions::tolerance(self.tol)
+            .with_fill_rule(self.rule)
+            .with_sweep_orientation(self.orient)
+            .with_intersections(self.handle_ix);
+        let has_store = self.has_store();
+        let mut log = ReuseLogC {
+            o: Out::new(),
+            nv: 0,
+            refuse_at: self.refuse,
+            nattr: if has_store { self.nattr } else { 0 },
+            show_attrs: has_store && self.nattr > 0,
+            bad_count: None,
+        };
+        let n_end: usize = self.subs.iter().map(|s| 1 + s.segs.len()).sum();
+        let r = guarded(|| {
+            if self.entry == 4 {
+                if self.nattr == 0 && n_end % 2 == 0 {
+                    // `builder()` is `NoAttributes::wrap` of the same `FillBuilder`
+                    let mut b = tess.builder(&opts, &mut log);
+                    for s in &self.subs {
+                        b.begin(s.start);
+                        for g in &s.segs {
+                            match g {
+                                Seg::Line(p) => b.line_to(*p),
+                                Seg::Quad(c, p) => b.quadratic_bezier_to(*c, *p),
+                                Seg::Cubic(c1, c2, p) => b.cubic_bezier_to(*c1, *c2, *p),
+                            };
+                        }
+                        b.end(s.closed);
+                    }
+                    if self.dropped {
+                        drop(b);
+                        Ok(())
+                    } else {
+                        b.build()
+                    }
+                } else {
+                    let mut b = tess.builder_with_attributes(self.nattr, &opts, &mut log);
+                    self.drive(&mut b);
+                    if self.dropped {
+                        drop(b);
+                        Ok(())
+                    } else {
+                        b.build()
+                    }
+                }
+            } else {
+                let mut b = Path::builder_with_attributes(self.nattr);
+                self.drive(&mut b);
+                let p = b.build();
+                match self.entry {
+                    0 => tess.tessellate(p.iter(), &opts, &mut log),
+                    1 => tess.tessellate_path(&p, &opts, &mut log),
+                    2 => tess.tessellate_with_ids(p.id_iter(), &p, None, &opts, &mut log),
+                    _ => tess.tessellate_with_ids(p.id_iter(), &p, Some(&p), &opts, &mut log),
+                }
+            }
+        });
+        let bad = log.bad_count;
+        match r {
+            None => ("call panic".to_string(), true, bad),
+            Some(Ok(())) => (format!("call ok {}", log.o.0).trim_end().to_string(), false, bad),
+            Some(Err(e)) => (format!("call err {} {}", format!("{:?}", e).replace(' ', "_"), log.o.0).trim_end().to_string(), false, bad),
+        }
+    }
+
+    fn tag(&self) -> String {
+        let what = if self.dropped {
+            "dropped"
+        } else if self.refuse != 0 {
+            "refuse"
+        } else if self.tol.is_nan() || self.tol <= 0.0 {
+            "badtol"
+        } else if !self.handle_ix {
+            "noix"
+        } else {
+            "plain"
+        };
+        format!("{}/a{}/{}", CENTRY_NAMES[self.entry], self.nattr, what)
+    }
+}
+
+#[derive(Clone)]
+enum ACall {
+    P(RCall),
+    C(CCall),
+}
+
+impl ACall {
+    fn run(&self, tess: &mut FillTessellator) -> (String, bool, Option<usize>) {
+        match self {
+            ACall::P(c) => {
+                let (t, p) = c.run(tess);
+                (t, p, None)
+            }
+            ACall::C(c) => c.run(tess),
+        }
+    }
+    fn tag(&self) -> String {
+        match self {
+            ACall::P(c) => format!("P:{}", c.tag()),
+            ACall::C(c) => format!("C:{}", c.tag()),
+        }
+    }
+}
+
+fn sweepc_reuse_case(ctx: &mut Ctx) {
+    ctx.case("sweepc_reuse:32", |rng| {
+        let n = rng.range(2, 5) as usize;
+        let calls: Vec<ACall> = (0..n)
+            .map(|i| {
+                let last = i + 1 == n;
+                if rng.chance(if last { 1 } else { 3 }, 8) {
+                    ACall::P(RCall::gen(rng, last))
+                } else {
+                    ACall::C(CCall::gen(rng, last))
+                }
+            })
+            .collect();
+        let mut args = Out::new();
+        args.u(n as u64);
+        for c in &calls {
+            match c {
+                ACall::P(c) => {
+                    args.t("P");
+                    c.put(&mut args);
+                }
+                ACall::C(c) => {
+                    args.t("C");
+                    c.put(&mut args);
+                }
+            }
+        }
+        let hist: Vec<String> = calls[..n - 1].iter().map(|c| c.tag()).collect();
+        let kind = match &calls[n - 1] {
+            ACall::C(c) => c.kind.clone(),
+            ACall::P(c) => c.poly.kind.to_string(),
+        };
+        let tag = format!("sweepc_reuse n={} hist={} last={} {}", n, hist.join("+"), calls[n - 1].tag(), kind);
+        (args, tag, move || {
+            let mut tess = FillTessellator::new();
+            let mut o = Out::new();
+            let mut orc = Oracle::new();
+            let mut unwound = false;
+            let mut known_last: Option<(usize, String, String)> = None;
+            for (i, c) in calls.iter().enumerate() {
+                let (toks, panicked, bad) = c.run(&mut tess);
+                let (fresh, _, _) = c.run(&mut FillTessellator::new());
+                o.t(&toks);
+                orc.check(bad.is_none(), "sweepc_reuse/attr-count", "generic", || {
+                    format!("call {}: interpolated_attributes() returned {} values", i, bad.unwrap_or(0))
+                });
+                if toks != fresh {
+                    if unwound {
+                        known_last.get_or_insert((i, toks.clone(), fresh.clone()));
+                    } else {
+                        orc.check(false, "sweepc_reuse/fresh-equal", "generic", || {
+                            format!("call {} of the history differs from a fresh tessellator: reused `{}` fresh `{}`", i, toks, fresh)
+                        });
+                    }
+                }
+                unwound |= panicked;
+            }
+            if let Some((i, a, b)) = known_last {
+                orc.check(false, "sweepc_reuse/fresh-equal", "after-unwind", || {
+                    format!("call {} (after a call that panicked) differs: reused `{}` fresh `{}`", i, a, b)
+                });
+            }
+            CaseOut { imp: o, orcl: orc.verdict }
+        })
+    });
+}
+
+
+// ---------------------------------------------------------------------------------------------
+// Tie (checker family) `chk_stroke_attrs`: `StrokeVertex::interpolated_attributes` on a REUSED
+// `StrokeTessellator` (`Model/Tess/StrokeAttrBuffer.lean`).  A history of 2–4 calls with changing
+// attribute counts (growing AND shrinking) through `tessellate`, `tessellate_path`,
+// `tessellate_with_ids`, `builder()`, `builder_with_attributes(n)` on paths with curves (vertices with
+// `VertexSource::Edge`); per call the harness records the attribute store as the stroker sees it and,
+// per vertex, its source and the attributes lyon computed.  The Lean model threads the object's
+// buffer through the history (`prologueBuffer`: local `Vec` / `clear` + `push(0.0)` × n; `attrsSeqB`:
+// the interpolation loop over `buffer.len()`; `bufferAfter`) and must reproduce every attribute bit
+// for bit (the model's verdict is a second oracle).
+
+struct StrokeAttrRec {
+    verts: Vec<(VertexSource, Vec<f32>)>,
+}
+impl GeometryBuilder for StrokeAttrRec {
+    fn add_triangle(&mut self, _: VertexId, _: VertexId, _: VertexId) {}
+}
+impl StrokeGeometryBuilder for StrokeAttrRec {
+    fn add_stroke_vertex(&mut self, mut v: StrokeVertex) -> Result<VertexId, GeometryBuilderError> {
+        let s = v.source();
+        let at = v.interpolated_attributes().to_vec();
+        self.verts.push((s, at));
+        Ok(VertexId(self.verts.len() as u32 - 1))
+    }
+}
+
+fn stroke_attrs_case(ctx: &mut Ctx) {
+    ctx.case_check("chk_stroke_attrs", |rng| {
+        let n = rng.range(2, 4) as usize;
+        let calls: Vec<StrokeCall> = (0..n)
+            .map(|_| loop {
+                let mut c = StrokeCall::gen(rng);
+                c.fault = Fault::None;
+                if matches!(c.entry, 0 | 1 | 2 | 4 | 5) {
+                    break c;
+                }
+            })
+            .collect();
+        let mut args = Out::new();
+        args.u(n as u64);
+        for c in &calls {
+            args.t(&c.describe().replace(' ', "_"));
+        }
+        let tag = format!("chk_stroke_attrs {}", calls.iter().map(|c| format!("{}/a{}", STROKE_ENTRIES[c.entry], c.path.nattr)).collect::<Vec<_>>().join("+"));
+        (args, tag, move || {
+            let mut tess = StrokeTessellator::new();
+            let mut o = Out::new();
+            let mut chk = Out::new();
+            let mut orc = Oracle::new();
+            chk.u(n as u64);
+            let mut edges = 0u64;
+            for c in &calls {
+                let opts = c.options();
+                let path = c.path.to_path();
+                let mut rec = StrokeAttrRec { verts: Vec::new() };
+                let nattr = c.path.nattr;
+                let r = match c.entry {
+                    0 => tess.tessellate(path.iter(), &opts, &mut rec),
+                    1 => tess.tessellate_path(&path, &opts, &mut rec),
+                    2 if nattr > 0 => tess.tessellate_with_ids(path.id_iter(), &path, Some(&path), &opts, &mut rec),
+                    2 => tess.tessellate_with_ids(path.id_iter(), &path, None, &opts, &mut rec),
+                    4 => {
+                        let mut b = tess.builder(&opts, &mut rec);
+                        c.path.drive(&mut b);
+                        b.build()
+                    }
+                    _ => {
+                        let mut b = tess.builder_with_attributes(nattr, &opts, &mut rec);
+                        c.path.drive(&mut b);
+                        b.build()
+                    }
+                };
+                o.t(if r.is_ok() { "ok" } else { "err" }).u(rec.verts.len() as u64);
+                // the entry point as the model names it, and the attribute store the stroker sees
+                let (kind, n_store): (&str, usize) = match c.entry {
+                    0 => ("ev", 0),
+                    1 if nattr == 0 => ("ev", 0),
+                    1 | 2 => ("ids", nattr),
+                    4 => ("bld", 0),
+                    _ => ("bld", nattr),
+                };
+                let mut store: Vec<(u32, Vec<f32>)> = Vec::new();
+                if kind == "ids" && n_store > 0 {
+                    for e in path.id_iter() {
+                        let id = match e {
+                            lyon_path::IdEvent::Begin { at } => Some(at),
+                            lyon_path::IdEvent::Line { to, .. } | lyon_path::IdEvent::Quadratic { to, .. } | lyon_path::IdEvent::Cubic { to, .. } => Some(to),
+                            lyon_path::IdEvent::End { .. } => None,
+                        };
+                        if let Some(id) = id {
+                            store.push((id.0, path.attributes(id).to_vec()));
+                        }
+                    }
+                } else if kind == "bld" && n_store > 0 {
+                    // `SimpleAttributeStore::add`: the k-th endpoint gets id k
+                    for (k, a) in c.path.attrs.iter().enumerate() {
+                        store.push((k as u32, a.clone()));
+                    }
+                }
+                chk.t(kind).u(n_store as u64).u(store.len() as u64);
+                for (id, a) in &store {
+                    chk.u(*id as u64);
+                    for x in a {
+                        chk.f(*x);
+                    }
+                }
+                chk.u(rec.verts.len() as u64);
+                for (src, at) in &rec.verts {
+                    match src {
+                        VertexSource::Endpoint { id } => {
+                            chk.t("e").u(id.0 as u64);
+                        }
+                        VertexSource::Edge { from, to, t } => {
+                            edges += 1;
+                            chk.t("g").u(from.0 as u64).u(to.0 as u64).f(*t);
+                        }
+                    }
+                    chk.u(at.len() as u64);
+                    for x in at {
+                        chk.f(*x);
+                    }
+                    orc.check(at.len() == n_store, "stroke_attrs/attr-count", "generic", || {
+                        format!("{} [{}]: interpolated_attributes() returned {} values, the store has {}", STROKE_ENTRIES[c.entry], kind, at.len(), n_store)
+                    });
+                }
+            }
+            o.t("edges").u(edges);
+            (CaseOut { imp: o, orcl: orc.verdict }, Some(chk))
+        })
+    });
+}
+
+
 fn main() {
     let mut ctx = Ctx::from_args("C08");
     let n_hist_fill = ctx.n(12_000, 400_000);
@@ -1487,6 +2217,16 @@ fn main() {
     // the sweep model on a reused object (ids after the older families, so those keep their ids)
     for _ in 0..n_reuse {
         sweep_reuse_case(&mut ctx);
+    }
+    // the same on curved input with custom attributes (ids after all the older families)
+    let n_reuse_c = ctx.n(500, 20_000);
+    for _ in 0..n_reuse_c {
+        sweepc_reuse_case(&mut ctx);
+    }
+    // the stroke tessellator's attribute buffer on a reused object (checker family)
+    let n_sattr = ctx.n(600, 20_000);
+    for _ in 0..n_sattr {
+        stroke_attrs_case(&mut ctx);
     }
     ctx.finish();
 }
